@@ -241,7 +241,7 @@ def gen_net(rng, n, tier):
             s, t = rng.randrange(nn), rng.randrange(nn)
             mids = [[rng.uniform(-1000, 1000), rng.uniform(-1000, 1000)] for _ in range(rng.randint(0, 3))]
             edges.append({'id': 'e%d' % k, 's': 'n%d' % s, 't': 'n%d' % t, 'o': rng.choice([-1, 0, 1]), 'geom': [pos[s]] + mids + [pos[t]]})
-        out.append({'edges': edges})
+        out.append({'edges': edges, 'sep': rng.choice([',', ',', ';', '|', '\t']), 'h': rng.choice([1, 1, 0])})       # the separator and header options of the writer
     return out
 
 
@@ -257,9 +257,10 @@ def run_net(case):
         ed.orientation = e['o']
         net.addEdge(ed, Node(e['s'], ENUCoords(e['geom'][0][0], e['geom'][0][1], 0)), Node(e['t'], ENUCoords(e['geom'][-1][0], e['geom'][-1][1], 0)))
     path = os.path.join(scratch(), 'net.csv')
-    NetworkWriter.writeToCsv(net, path, separator=',', h=1)
+    sep, h = case.get('sep', ','), case.get('h', 1)
+    NetworkWriter.writeToCsv(net, path, separator=sep, h=h)
     fmt = NetworkFormat()
-    fmt.createFromDict({'name': 'V', 'pos_edge_id': 0, 'pos_source': 1, 'pos_target': 2, 'pos_wkt': 4, 'pos_weight': -1, 'pos_direction': 3, 'separator': ',', 'header': 1, 'doublequote': True, 'encoding': 'utf-8', 'srid': 'ENU'})
+    fmt.createFromDict({'name': 'V', 'pos_edge_id': 0, 'pos_source': 1, 'pos_target': 2, 'pos_wkt': 4, 'pos_weight': -1, 'pos_direction': 3, 'separator': sep, 'header': h, 'doublequote': True, 'encoding': 'utf-8', 'srid': 'ENU'})
     back = NetworkReader.readFromFile(path, fmt, verbose=False)
     os.remove(path)
     res = []
